@@ -8,6 +8,8 @@ RegisteredDelivery / DataCoding / InterfaceVersion, map-lookup based CommandID.S
 CommandStatus.String) are covered by the regenerated panic-site inventory; Parse's decoders are
 total (GSM 7-bit: C08 model; the others are golang.org/x/text, trusted).
 -/
+import Smpp.Properties.SrcPduAccess
+import Smpp.Properties.SrcCombine
 import Smpp.Proofs.CombinerProofs
 import Smpp.Generated.PduFacts
 
